@@ -23,6 +23,7 @@ def alphabet(tier):
     for a, b in ((False, False), (True, False)):
         for k in (1, 2):
             ops.append(("sim", k, a, b, ()))  # logs kept, max_time possibly below the current time
+    ops.append(("sim", BIG, True, True, tuple(range(1, 12))))  # eleven consecutive project-wide absence steps
     ops.append(("simauto", (0, 2)))  # simulate(absence=[0,2], perform_auto_task_while_absence_time=True)
     ops.append(("simauto", (1,)))
     ops.append(("insert", (1,)))  # insert_absence_time_list([1]) - names a step that is already registered when the run had absence [1]
